@@ -1,7 +1,9 @@
 (* Bridge (property C05): the error-tracking reader of NewJSONAmmoDecoder / JSONAmmoDecoder.Decode (core/provider/json.go)
    and the statement of DecodeProvider.Run that installs the empty-pass guard (core/provider/decoder.go), as re-read by
    `translate jsondecode` (Gen/JsonDecodeGen.v), are the variant the model (Model/JsonDecode.v, jd_current = jd_tree) and
-   its theorems are about: an error that comes with data is not noted, the guard is installed whatever passes says. *)
+   its theorems are about: an error that comes with data is not noted, the guard is installed whatever passes says, and
+   the guard has a Read of its own that keeps an io.EOF that comes with data back (repair PENDING-COMMIT; a tree without
+   that method reads jv_defers_eof = false and json_decode_source_is_model no longer checks). *)
 From Coq Require Import List Arith Bool Lia.
 From PV Require Import Model.JsonDecode Proofs.JsonDecodeProofs Gen.JsonDecodeGen.
 Import ListNotations.
@@ -24,3 +26,10 @@ Theorem json_decode_source_no_ammo_terminates : forall passes limit pend nonempt
   jd_passes (S fuel) gen_jd_variant passes limit 0 pend nonempty 0 0 0 = (JdNil, 0).
 Proof. intros. apply jd_passes_no_ammo_ends. reflexivity. Qed.
 Print Assumptions json_decode_source_no_ammo_terminates.
+
+(* ... and every source that can be sought, whichever way it reports its end, is read `passes` times *)
+Theorem json_decode_source_passes_counted : forall a pend passes n pc d db fuel,
+  0 < a -> 0 < n -> pc + n = passes -> db <= d -> n <= fuel ->
+  jd_passes fuel gen_jd_variant passes 0 a pend true pc d db = (JdNil, d + n * a).
+Proof. intros a pend passes n pc d db fuel. apply jd_passes_counts. left. reflexivity. Qed.
+Print Assumptions json_decode_source_passes_counted.
